@@ -45,6 +45,7 @@ def student_source():
         lines.append("def get_%d():\n    return %s" % (i, lit))
     lines.append("def raises():\n    raise ValueError('student failure')")
     lines.append("def exits():\n    import sys\n    sys.exit(3)")
+    lines.append("def ident(x):\n    return x")
     for i, (name, body) in enumerate(sorted(SAY.items())):
         lines.append("def say_%d():\n    %s" % (i, body))
     lines.append("def ut(x):\n    if x % 3 == 0:\n        return x\n    if x % 3 == 1:\n        return x + 1\n    raise ValueError('bad')")
@@ -71,7 +72,10 @@ class World:
         if name == "errx":                      # a student function that ends the interpreter instead of returning
             return self.S.call("exits")
         if name in EXTRA:
-            return EXTRA[name]          # types and patterns are instructor-side values, never proxied
+            if name.startswith("re:") and wrap == "proxy":
+                # a pattern the student's own code produced (e.g. a function that builds a regular expression)
+                return self.S.call("ident", EXTRA[name])
+            return EXTRA[name]          # types are instructor-side values, never proxied
         if wrap == "proxy":
             return self.S.call(GETTER[name])
         if name.startswith("DC"):
